@@ -47,6 +47,7 @@ ASSUMPTIONS = [
     '#FOR flag 4 substitutes in a separator the value of the element that precedes it; fsep is used verbatim',
     'comparison operators yield 1/0; only the truth of && and || is used; / and % only on non-negative operands',
     '#PC always renders as a decimal address',
+    'a macro whose output is used inside an arithmetic expression yields a plain decimal number (no zero padding: "010" is accepted as a parameter on its own but not inside an expression, and the documentation is silent about leading zeros)',
 ]
 
 MODES = [(b, c) for b in (0, 10, 16) for c in (0, 1, 2)]
